@@ -42,12 +42,21 @@ func GetDeleteSlots(set metav1.Object) (deleteSlots sets.Int32) {
 	if !ok {
 		return
 	}
-	var slice []int32
+	// decode into pointers: a null element names no ordinal (encoding/json would leave a plain int32 at 0, i.e.
+	// ordinal 0), and a value that contains one is as unusable as one that does not parse
+	var slice []*int32
 	err := json.Unmarshal([]byte(value), &slice)
 	if err != nil {
 		return
 	}
-	deleteSlots.Insert(slice...)
+	for _, slot := range slice {
+		if slot == nil {
+			return
+		}
+	}
+	for _, slot := range slice {
+		deleteSlots.Insert(*slot)
+	}
 	return
 }
 
